@@ -96,6 +96,47 @@ func propC12(a *Analysis, r *Registry) {
 				r.Fail(rB, name+"/loop", b.pos(fn), "expected one bisection loop")
 				return
 			}
+			// with neither end a root nothing is returned before the loop, and an interval whose
+			// ends have the same sign is rejected (panic) rather than bisected
+			func() {
+				neither := []Assumption{{Cond: c1, True: false}, {Cond: c2, True: false}}
+				early := ""
+				for _, rt := range fc.Ctx.Returns() {
+					if loops[0].Body[rt.Block().Index] || fc.Ctx.Dominates(loops[0].Header, rt.Block()) {
+						continue
+					}
+					rc := fc.ReachCond(rt.Block())
+					if X.EvalCond(rc, neither) != False {
+						early = a.W.InstrPos(rt)
+					}
+				}
+				if early == "" {
+					r.OK(rB, name+"/no-early-result", b.pos(fn), "with neither end within the tolerance no result is returned before the bisection")
+				} else {
+					r.Fail(rB, name+"/no-early-result", early, "a result can be returned before the bisection although neither end is within the tolerance")
+				}
+				sameSign := env.MustParse("mathx.Sign(f(low0))==mathx.Sign(f(high0))")
+				nPanic := 0
+				fc.Ctx.Instrs(func(in ssa.Instruction) {
+					pn, ok := in.(*ssa.Panic)
+					if !ok || loops[0].Body[pn.Block().Index] || fc.Ctx.Dominates(loops[0].Header, pn.Block()) {
+						return
+					}
+					nPanic++
+					rc := fc.ReachCond(pn.Block())
+					same := append(append([]Assumption{}, neither...), Assumption{Cond: sameSign, True: true})
+					diff := append(append([]Assumption{}, neither...), Assumption{Cond: sameSign, True: false})
+					want := S.And(S.And(S.Not(c1), S.Not(c2)), sameSign)
+					if (X.EvalCond(rc, same) == True && X.EvalCond(rc, diff) == False) || rc.Equal(want) || X.EquivByCases(rc, want, 0) {
+						r.OK(rB, name+"/unbracketed-panics", a.W.InstrPos(pn), "with neither end a root: panic exactly when the ends have the same sign")
+					} else {
+						r.Fail(rB, name+"/unbracketed-panics", a.W.InstrPos(pn), "the interval is not rejected exactly when its ends have the same sign: panics when "+clip(rc.String(), 200))
+					}
+				})
+				if nPanic == 0 {
+					r.Fail(rB, name+"/unbracketed-panics", b.pos(fn), "no rejection of an interval that does not bracket a root")
+				}
+			}()
 			_ = loops[0].Header
 			type out struct{ cond, val *RF }
 			byOK := map[bool]*out{}
@@ -630,8 +671,31 @@ func propC12(a *Analysis, r *Registry) {
 						}
 						return true
 					}()
+					// the starting bracket: the sample's bounds, moved apart by a positive constant when
+					// they coincide
+					startOK := func(k int, outward int) bool {
+						ia := xi.SingleAtom()
+						bk := e3.MustParse(fmt.Sprintf("kde.Sample.Bounds()#%d", k))
+						if xi.Equal(bk) {
+							return true
+						}
+						if ia == nil || ia.Name != "ite" || !ia.Args[2].Equal(bk) {
+							return false
+						}
+						eq := e3.MustParse("kde.Sample.Bounds()#0==kde.Sample.Bounds()#1")
+						if !ia.Args[0].Equal(eq) && !ia.Args[0].Equal(e3.MustParse("kde.Sample.Bounds()#1==kde.Sample.Bounds()#0")) {
+							return false
+						}
+						c, isC := ia.Args[1].Sub(bk).IsConst()
+						return isC && c.Sign() == outward
+					}
 					switch {
 					case ga.Args[1].Equal(cdfx) && constIs(ga.Args[0], 0.005):
+						if startOK(0, -1) {
+							r.OK(rB, name+"/expansion/low/start", lwhere, "the low end starts at the sample's minimum (moved down by a constant when the sample is one point)")
+						} else {
+							r.Fail(rB, name+"/expansion/low/start", lwhere, "the low end does not start at the sample's minimum / is not moved down for a one-point sample: "+clip(xi.String(), 160))
+						}
 						nDown++
 						cn := name + "/expansion/low"
 						if inv {
@@ -644,6 +708,11 @@ func propC12(a *Analysis, r *Registry) {
 						}
 					case ga.Args[0].Equal(cdfx) && constIs(ga.Args[1], 0.995):
 						nUp++
+						if startOK(1, 1) {
+							r.OK(rB, name+"/expansion/high/start", lwhere, "the high end starts at the sample's maximum (moved up by a constant when the sample is one point)")
+						} else {
+							r.Fail(rB, name+"/expansion/high/start", lwhere, "the high end does not start at the sample's maximum / is not moved up for a one-point sample: "+clip(xi.String(), 160))
+						}
 						cn := name + "/expansion/high"
 						if inv {
 							r.OK(rB, cn+"/step", lwhere, "while CDF(high) < 0.995: high moves up by the current width (high' = 2·high − low)")
